@@ -116,6 +116,10 @@ func VerifPipeLaw() {
 	mode := verifParam("mode")
 	depth := verifParam("depth")
 	d := verifNondetJSON(depth)
+	if verifHasParam("first") {
+		// an earlier (possibly failing) call must not influence the law
+		Search(verifParamStr("first"), nil)
+	}
 	whole, ew := Search(ta+" | "+tb, d)
 	mid, ea := Search(ta, d)
 	verifNote("errw", ew != nil)
